@@ -483,4 +483,28 @@ def _witness(ctx):
         check_pair(ctx, s, d, "plain")
 
 
-DIRECTED = {"union-origin-only-and-empty-tuple": _witness, "refusal-does-not-depend-on-history": check_refusal_after_enabling_recipe}
+def _self_typed_fields(ctx):
+    """Known finding: typing.Self of the source model and typing.Self of the destination model are one and the same object, so the
+    same-type coercer passes a SOURCE instance unchanged into a field whose static type is the DESTINATION class."""
+    try:
+        from typing import Self  # noqa: PLC0415
+    except ImportError:
+        return
+    Node = make_dataclass("NodeS14", [("value", int), ("next", Optional[Self], field(default=None))])
+    DTO = make_dataclass("NodeD14", [("value", int), ("next", Optional[Self], field(default=None))])
+    Kids = make_dataclass("KidsS14", [("kids", List[Self], field(default_factory=list))])
+    KidsD = make_dataclass("KidsD14", [("kids", List[Self], field(default_factory=list))])
+    for s, d, value, pick in ((Node, DTO, lambda: Node(1, Node(2)), lambda o: o.next), (Kids, KidsD, lambda: Kids([Kids()]), lambda o: o.kids[0])):
+        made = attempt(get_converter, s, d)
+        ctx.evaluated(("self-typed", s.__name__))
+        ctx.count("witness_conversions")
+        if made.kind != "ok":
+            if not isinstance(made.exc, ProviderNotFoundError):
+                ctx.violation(f"self-typed-field:refusal-is-{type(made.exc).__name__}", f"{s.__name__} -> {d.__name__}: {made.exc!r}", {})
+            continue
+        out = attempt(made.value, value())
+        if out.kind != "ok" or not isinstance(pick(out.value), d):
+            ctx.violation("unsound-coercion:typing.Self", f"get_converter({s.__name__}, {d.__name__}) was produced; the field typed Self of {d.__name__} holds {pick(out.value) if out.kind == 'ok' else out!r:.120}", {"src": s.__name__, "dst": d.__name__})
+
+
+DIRECTED = {"self-typed-fields": _self_typed_fields, "union-origin-only-and-empty-tuple": _witness, "refusal-does-not-depend-on-history": check_refusal_after_enabling_recipe}
